@@ -120,7 +120,10 @@ func genWriterStream(r *Rng, api string, std bool) StreamSpec {
 }
 
 func genMalformed(r *Rng) StreamSpec {
-	switch r.Intn(11) {
+	switch r.Intn(12) {
+	case 11:
+		// an unassigned long code whose table slot was filled by the previous block's table
+		return StreamSpec{Kind: "synth", Synth: &SynthSpec{Seed: r.U64(), Blocks: 2, Kinds: "H", Size: 0}}
 	case 10:
 		return StreamSpec{Kind: "synth", Synth: &SynthSpec{Seed: r.U64(), Blocks: 2, Kinds: "M"}}
 	case 0:
